@@ -164,6 +164,7 @@ func Shrink(sc *core.Scenario, fails Failing, budget int) (*core.Scenario, int) 
 			return &grl.Fact{A: []int64{0, 0, 0}, AS: []string{"", "", ""}, AF: []float32{0, 0, 0},
 				L: []*grl.Sub{{}, {}}, MP: map[string]*grl.Sub{"k1": {}, "k2": {}},
 				M: map[string]int64{"k1": 0, "k2": 0}, MS: map[string]string{"k1": "", "k2": ""},
+				MI: map[int64]int64{1: 0, 2: 0}, AI: []interface{}{int64(0), "", 0.0},
 				P: &grl.Sub{Q: &grl.Leaf{}}, P2: &grl.Sub{Q: &grl.Leaf{}}, PN: new(int64)}
 		}
 		if best.Facts != nil {
